@@ -15,12 +15,25 @@ package fox
 
 //@ -- ---------------------------------------------------------------- node construction
 
-//@ func parseWildcard props C03 partial
+//@ -- a node key is a valid fragment: every '*' is followed by '{', every '{' is closed and the name in between
+//@ -- holds neither '{' nor '*'
+//@ pred keyOK(s string) = (forall p int :: {s[p]} 0 <= p && p < len(s) && s[p] == '*' ==> p + 1 < len(s) && s[p+1] == '{') && (forall p int :: {s[p]} 0 <= p && p < len(s) && s[p] == '{' ==> nextClose(s, p) < len(s)) && (forall p int, q int :: {s[p], s[q]} 0 <= p && p < q && q < len(s) && s[p] == '{' && q < nextClose(s, p) ==> s[q] != '{' && s[q] != '*')
+//@ -- what parseWildcard returns for a valid fragment: one entry per '{', whose end is the position after its '}'
+//@ -- (or -1 when the fragment ends there), so that the '{' count up to `end` is the entry's index + 1
+//@ pred paramsOK(s string, ps []param) = len(ps) == cnt(s, len(s)) && (forall k int :: {ps[k]} 0 <= k && k < len(ps) ==> (ps[k].end == -1 ==> k == len(ps) - 1) && (ps[k].end != -1 ==> 0 < ps[k].end && ps[k].end <= len(s) && cnt(s, ps[k].end) == k + 1))
+
+//@ func parseWildcard props C03,C01 partial
 //@   ensures result == nil || fresh(result)
+//@   ensures @C01 params-ok: keyOK(segment) ==> paramsOK(segment, result)
 //@   loop 1: invariant params == nil || fresh(params)
+//@   loop 1: invariant @C01 pos: 0 <= i && (state == stateDefault || state == stateParam || state == stateCatchAll) && (state != stateDefault ==> 0 < start && start <= i)
+//@   loop 1: invariant @C01 pos-ok: keyOK(segment) ==> (state == stateDefault ==> i <= len(segment)) && (state != stateDefault ==> i <= len(segment) && segment[start-1] == '{' && i <= nextClose(segment, start-1) && nextClose(segment, start-1) < len(segment) && segment[nextClose(segment, start-1)] == '}')
+//@   loop 1: invariant @C01 count: keyOK(segment) ==> (state == stateDefault ==> len(params) == cnt(segment, i)) && (state != stateDefault ==> len(params) + 1 == cnt(segment, i))
+//@   loop 1: invariant @C01 entries: keyOK(segment) ==> forall k int :: {params[k]} 0 <= k && k < len(params) ==> (params[k].end == -1 ==> i >= len(segment) && k == len(params) - 1) && (params[k].end != -1 ==> 0 < params[k].end && params[k].end <= len(segment) && params[k].end <= i && cnt(segment, params[k].end) == k + 1)
 
 //@ func newNodeFromRef props C03,C05,C02 partial
 //@   ensures result != nil && fresh(result) && same(result.key, key) && result.route == route && result.children == children && result.childKeys == childKeys && result.paramChildIndex == paramChildIndex && result.wildcardChildIndex == wildcardChildIndex
+//@   ensures @C01 params-ok: keyOK(key) ==> paramsOK(key, result.params)
 
 //@ -- newNode sorts `children` in place: the caller must own that array (frame obligation at the call site)
 //@ func newNode props C03,C05,C02 partial
